@@ -136,4 +136,63 @@ def guardBound (ty : IntTy) : Int := 2 ^ (ty.bits / 2 - 2)
 
 def inGuard (ty : IntTy) (z : Int) : Bool := -(guardBound ty) ≤ z && z ≤ guardBound ty
 
+/-! ### The property's domain up to the true edge of the integer type ("the mathematical intermediate values fit")
+
+The guard above is a box that is easy to state; the property itself speaks of operands "below the overflow threshold".
+The predicates below say, for one concrete pair of canonical operands, that the cross products the operators are
+specified to form (`a·d`, `b·c`, their sum / difference, `b·d`, …) are representable and — where the value is handed to
+`norm`, whose gcd takes absolute values — of magnitude at most `MAX` (the minimum of the type has no absolute value).
+`Props/C07.lean` (`*_edge_machine`) proves that on this domain the checked machine pipeline returns exactly the value
+of core Lean's `Rat` arithmetic, for every signed integer type; the driver uses these predicates to decide between a
+definite `S` and `any`, so `i8 … i128` are all compared with the specification right up to the limit of the type. -/
+
+/-- `|z| ≤ MAX` of the type: `z`, `-z` and `|z|` are all representable. -/
+def magOk (ty : IntTy) (z : Int) : Bool := -ty.maxVal ≤ z && z ≤ ty.maxVal
+
+/-- Domain of `new(a, b)`: non-zero denominator, both fields of magnitude `≤ MAX` (gcd takes `abs` of both). -/
+def domNew (ty : IntTy) (a b : Int) : Bool := b ≠ 0 && magOk ty a && magOk ty b
+
+def domAdd (ty : IntTy) (x y : Q) : Bool :=
+  ty.fits (x.a * y.b) && ty.fits (x.b * y.a) && magOk ty (x.a * y.b + x.b * y.a) && magOk ty (x.b * y.b)
+
+def domSub (ty : IntTy) (x y : Q) : Bool :=
+  ty.fits (x.a * y.b) && ty.fits (x.b * y.a) && magOk ty (x.a * y.b - x.b * y.a) && magOk ty (x.b * y.b)
+
+def domMul (ty : IntTy) (x y : Q) : Bool := magOk ty (x.a * y.a) && magOk ty (x.b * y.b)
+
+/-- `/`: non-zero divisor, both cross products of magnitude `≤ MAX`. -/
+def domDiv (ty : IntTy) (x y : Q) : Bool := y.a ≠ 0 && magOk ty (x.a * y.b) && magOk ty (x.b * y.a)
+
+/-- `floor` moves a negative numerator by `b − 1` away from zero before the truncating division. -/
+def domFloor (ty : IntTy) (x : Q) : Bool := 0 ≤ x.a || ty.fits (x.a - x.b)
+
+/-- `ceil` moves a non-negative numerator by `b − 1` away from zero before the truncating division. -/
+def domCeil (ty : IntTy) (x : Q) : Bool := x.a < 0 || ty.fits (x.a + x.b)
+
+/-- The four binary operators as data (case lines `chain:ty op1 op2 …` name them). -/
+inductive BinOp where
+  | add | sub | mul | div
+  deriving DecidableEq, Repr, Inhabited
+
+namespace BinOp
+def parse? : String → Option BinOp
+  | "add" => some .add | "sub" => some .sub | "mul" => some .mul | "div" => some .div | _ => none
+/-- the model function (machine instantiation for `t = some ty`) -/
+def apply (t : Option IntTy) : BinOp → Q → Q → Except Panic Q
+  | .add => Rational.add t | .sub => Rational.sub t | .mul => Rational.mul t | .div => Rational.div t
+/-- the specification: arithmetic of core Lean's `Rat` -/
+def spec : BinOp → Rat → Rat → Rat
+  | .add => (· + ·) | .sub => (· - ·) | .mul => (· * ·) | .div => (· / ·)
+/-- the edge domain on canonical operands -/
+def dom (ty : IntTy) : BinOp → Q → Q → Bool
+  | .add => domAdd ty | .sub => domSub ty | .mul => domMul ty | .div => domDiv ty
+end BinOp
+
+/-- Specification of every order-based observation on several values at once (`sort`, `min`, `max`, `BTreeSet`, …):
+    the values in non-decreasing numeric order. -/
+def sortSpec (ps : List Rat) : List Rat := ps.mergeSort (fun p q => decide (p ≤ q))
+
+/-- Every ordered pair of the listed values (a value with itself included) is inside the domain of `cmp`. -/
+def domPairs (ty : IntTy) (xs : List Q) : Bool := xs.all (fun x => xs.all (fun y => domSub ty x y))
+
 end Rlib.Rational
